@@ -1,4 +1,5 @@
 import GoCrypt.Proofs.CodecShapes
+import GoCrypt.Props.C10General
 
 /-!
 # C10 — Marshal / Unmarshal round trip
@@ -372,5 +373,24 @@ example :
 #print axioms canonical_bcrypt
 #print axioms canonical_sunmd5
 #print axioms canonical_argon2
+
+-- THE GENERAL THEOREM (Props/C10General.lean): for an ARBITRARY struct type and value inside the explicit decidable hypothesis
+-- (well-formed type info ∧ Unambiguous ∧ groups separated; typed ∧ Representable ∧ non-empty last text ∧ no value mimicking an omitted parameter)
+-- Unmarshal(Marshal v) = v — layers L2 … L6 (= everything: params, inline, codecs, groups, omitempty, trailing optionals)
+#print axioms GoCrypt.C10General.roundtrip_L2
+#print axioms GoCrypt.C10General.roundtrip_L3
+#print axioms GoCrypt.C10General.roundtrip_L4
+#print axioms GoCrypt.C10General.roundtrip_L5
+#print axioms GoCrypt.C10General.roundtrip_L6
+#print axioms GoCrypt.C10General.roundtrip_general
+#print axioms GoCrypt.C10General.L2_hypotheses
+#print axioms GoCrypt.C10General.L3_hypotheses
+#print axioms GoCrypt.C10General.L4_hypotheses
+#print axioms GoCrypt.C10General.L5_hypotheses
+#print axioms GoCrypt.C10General.param_inline_excluded
+#print axioms GoCrypt.C10General.needs_lastTextOk
+#print axioms GoCrypt.C10General.needs_groupsSeparated
+#print axioms GoCrypt.C10General.needs_noSteal
+#print axioms GoCrypt.C10General.numReq_shadowed_param_counted_once
 
 end GoCrypt.C10
